@@ -31,7 +31,10 @@ MERGE_NAMES = ["Foo", "Bar", "Halper", "Bae", "Twombly", "Wingler", "Theatre Ent
 
 
 def plan(tier, seed):
-    return [dict(i=i, n=N[tier], seed=seed * 1000 + i, corpus=(i == 0)) for i in range(SHARDS[tier])]
+    specs = [dict(i=i, n=N[tier], seed=seed * 1000 + i, corpus=(i == 0)) for i in range(SHARDS[tier])]
+    if tier == "thorough":
+        specs.append(dict(i=99, suite=True, n=0, seed=seed))
+    return specs
 
 
 def prepare(tier, seed, workdir):
@@ -147,6 +150,8 @@ def merge_history(text, cs, cfg, rec, rng):
 
 
 def run_shard(spec, rec):
+    if spec.get("suite"):
+        return _extract.suite_under_contracts(rec, "C03.")
     instrument.install(rec, what=("filter_citations",))
     rng = random.Random(spec["seed"] + 77)
 
